@@ -259,7 +259,6 @@ impl Archive {
         options: &DeleteOptions,
         monitor: Arc<dyn Monitor>,
     ) -> Result<DeleteStats> {
-        let mut stats = DeleteStats::default();
         let start = Instant::now();
 
         // TODO: No need to lock for dry_run.
@@ -269,6 +268,35 @@ impl Archive {
             gc_lock::GarbageCollectionLock::new(self).await?
         };
         debug!("Got gc lock");
+
+        match self
+            .delete_bands_locked(&gc_lock, delete_band_ids, options, monitor)
+            .await
+        {
+            Ok(mut stats) => {
+                gc_lock.release().await?;
+                stats.elapsed = start.elapsed();
+                Ok(stats)
+            }
+            Err(err) => {
+                // Release the lock here rather than leaving it to Drop, whose detached
+                // cleanup task might not run before the process exits: that would leave
+                // a stale lock that makes later backups fail.
+                let _ = gc_lock.release().await;
+                Err(err)
+            }
+        }
+    }
+
+    /// The body of [Archive::delete_bands], run while holding the gc lock.
+    async fn delete_bands_locked(
+        &self,
+        gc_lock: &gc_lock::GarbageCollectionLock,
+        delete_band_ids: &[BandId],
+        options: &DeleteOptions,
+        monitor: Arc<dyn Monitor>,
+    ) -> Result<DeleteStats> {
+        let mut stats = DeleteStats::default();
 
         debug!("List band ids...");
         let mut keep_band_ids = self.list_band_ids().await?;
@@ -328,9 +356,6 @@ impl Archive {
             stats.deletion_errors += error_count;
             stats.deleted_block_count += unref_count - error_count;
         }
-        gc_lock.release().await?;
-
-        stats.elapsed = start.elapsed();
         Ok(stats)
     }
 
